@@ -75,6 +75,10 @@ def last_seg(ty):
     return t.split('::')[-1].strip()
 
 
+class Budget(Exception):
+    pass
+
+
 class Outcome:
     __slots__ = ('kind', 'state', 'value', 'info')
 
@@ -140,6 +144,7 @@ class Engine:
         self.stubs = []           # per-check (regex, fn, label)
         self.struct_models = {}   # type last segment -> fn(eng, st, base) building a symbolic value
         self.lenient = False      # under-constrained mode: unknown callees become uninterpreted calls
+        self.block_budget = None  # deterministic exploration budget (basic blocks) for bug-hunting scans
         self.merge_closure_calls = False   # pure closure calls are summarised into one ite value instead of forking
         self.ignored = []         # regexes of callees that are no-ops for the property (printing); return unit, no trace
         self.usize_bound = None   # if set: every fresh usize (lazy fields, uninterpreted results) is assumed below it
@@ -759,6 +764,14 @@ class Engine:
         if k == 'use':
             return self.eval_operand(st, frame, fn, rv[1])
         if k == 'ref' or k == 'addr':
+            pl = rv[2]
+            if pl[1] and pl[1][-1][0] == 'deref':
+                # reborrow `&*x` of a value that is itself modelled as a pointer-like atom (&str constants, opaque references)
+                inner = self.read_place(st, frame, (pl[0], pl[1][:-1]))
+                if isinstance(inner, (StrVal, Opaque)):
+                    return inner
+                if isinstance(inner, Ref):
+                    return Ref(inner.key, inner.projs, rv[1])
             return self.make_ref(st, frame, rv[2], rv[1])
         if k == 'binop':
             a = self.eval_operand(st, frame, fn, rv[2])
@@ -924,9 +937,14 @@ class Engine:
                 ovf = z3.ULT(x, y)
             return Tup([BV(x - y, a.ty), ovf])
         if op == 'MulWithOverflow':
-            ovf = z3.Not(z3.BVMulNoOverflow(x, y, s))
+            # portable encoding (cvc5 has no bvumul_noovfl): multiply in twice the width
+            w = x.size()
             if s:
-                ovf = z3.Or(ovf, z3.Not(z3.BVMulNoUnderflow(x, y)))
+                wide = z3.SignExt(w, x) * z3.SignExt(w, y)
+                ovf = wide != z3.SignExt(w, z3.Extract(w - 1, 0, wide))
+            else:
+                wide = z3.ZeroExt(w, x) * z3.ZeroExt(w, y)
+                ovf = z3.Extract(2 * w - 1, w, wide) != 0
             return Tup([BV(x * y, a.ty), ovf])
         if op == 'Cmp':
             lt = (x < y) if s else z3.ULT(x, y)
@@ -1004,6 +1022,10 @@ class Engine:
     def _run_block(self, s, frame, fn, bb, work, outcomes):
         while True:
             self.stats['blocks'] += 1
+            if self.block_budget is not None:
+                self.block_budget -= 1
+                if self.block_budget < 0:
+                    raise Budget('block budget exhausted in %s' % fn.name)
             vk = (frame, bb)
             c = s.visits.get(vk, 0) + 1
             s.visits[vk] = c
